@@ -32,13 +32,20 @@ fn bound(d: &Driver, coin_h: u64, difficulty: u32, tip910: bool) -> u128 {
 }
 
 fn mint_tx(d: &mut Driver, coin: &(CoinID, CoinDataHeight), data: Vec<u8>, erg: u128) -> Option<Transaction> {
+    mint_tx_n(d, std::slice::from_ref(coin), data, erg)
+}
+
+/// a mint spending several coins: the first input is the one the work is measured against
+fn mint_tx_n(d: &mut Driver, coins: &[(CoinID, CoinDataHeight)], data: Vec<u8>, erg: u128) -> Option<Transaction> {
+    let coin = &coins[0];
+    let _ = coin;
     let a = d.wal.address(CovKind::New(0));
     let mut fixed = vec![];
     if erg > 0 {
         fixed.push(mk_coin(a, erg, Denom::Erg, &[]));
     }
     // build() balances every denomination of the inputs; the ERG output is extra (mint), so add it after balancing
-    let mut t = d.build(TxKind::DoscMint, &[coin.clone()], vec![], 1, data, 0)?;
+    let mut t = d.build(TxKind::DoscMint, coins, vec![], 1, data, 0)?;
     t.outputs.extend(fixed);
     // re-fee and re-sign: fee grows with the extra output
     for _ in 0..4 {
@@ -67,6 +74,36 @@ pub fn dosc_history(out: &mut crate::Out, tag: &str, seed: u64, net: NetID, thor
     let fixed: Vec<CoinData> = (0..30).map(|i| mk_coin(a, 50_000_000 + i, Denom::Mel, &[])).collect();
     if let Some(t) = d.build(TxKind::Normal, &[sp[0].clone()], fixed, 1, vec![], 0) {
         d.apply(&[t], 0, json!({"why": "coins to mint from"}));
+    }
+    // two forks of the block that creates the coins (with / without a proposer action): the same coin, another header at its
+    // creation height, hence another puzzle; a mint worked out for fork A is no mint on fork B, before and after A has seen it
+    {
+        let u = d.cur;
+        let dest = d.wal.address(CovKind::New(1));
+        let sa = d.w.seal(u, Some(ProposerAction { fee_multiplier_delta: 0, reward_dest: dest }), json!({"why": "fork A of the coin-creating block"}));
+        let sb = d.w.seal(u, None, json!({"why": "fork B of the coin-creating block"}));
+        if let (Some(sa), Some(sb)) = (sa, sb) {
+            let (ua, ub) = (d.w.next(sa), d.w.next(sb));
+            d.cur = ua;
+            let h = d.view().height.0;
+            let coin = d.spendable().into_iter().find(|(_, x)| x.coin_data.denom == Denom::Mel && x.coin_data.value.0 >= 50_000_000 && x.coin_data.value.0 < 50_000_100 && x.height.0 < h);
+            if let (Some(coin), false) = (coin, mainnet) {
+                if let Some(seed_header) = header_at(&d, coin.1.height.0) {
+                    let puzzle = tmelcrypt::hash_keyed(seed_header.hash(), &stdcode::serialize(&coin.0).unwrap());
+                    for (tip910, difficulty) in [(false, 16usize), (true, 10usize)] {
+                        let b = bound(&d, coin.1.height.0, difficulty as u32, tip910);
+                        let data = stdcode::serialize(&(difficulty as u32, gen_proof(&puzzle, difficulty, tip910))).unwrap();
+                        if let Some(t) = mint_tx(&mut d, &coin, data, b) {
+                            d.w.batch(ub, &[t.clone()], 0, json!({"why": "mint worked out for fork A, presented to fork B first"}));
+                            d.w.batch(ua, &[t.clone()], 0, json!({"why": "mint worked out for fork A, on fork A"}));
+                            d.w.batch(ub, &[t.clone()], 0, json!({"why": "mint worked out for fork A, presented to fork B after fork A accepted it"}));
+                            d.w.batch(ub, &[t], 2, json!({"why": "the same once more on fork B (thread pool)"}));
+                        }
+                    }
+                }
+            }
+            d.cur = u;
+        }
     }
     let mut sealed = d.seal_next(Some(true)).unwrap();
     for _ in 0..2 {
@@ -166,6 +203,30 @@ pub fn dosc_history(out: &mut crate::Out, tag: &str, seed: u64, net: NetID, thor
                 }
                 if let Some(p) = d.random_pay() {
                     d.apply(&[p], 0, json!({"why": "payment after the fast mint in the same block"}));
+                }
+            }
+        }
+        // mints spending two coins of different ages: the first input alone decides puzzle, age, speed and reward bound
+        {
+            let h = d.view().height.0;
+            let sp: Vec<(CoinID, CoinDataHeight)> = d.spendable().into_iter().filter(|(_, x)| x.coin_data.denom == Denom::Mel && x.coin_data.value.0 > 10_000_000 && x.height.0 < h).collect();
+            let old = sp.iter().min_by_key(|(_, x)| x.height.0).cloned();
+            let young = sp.iter().max_by_key(|(_, x)| x.height.0).cloned();
+            if let (Some(old), Some(young)) = (old, young) {
+                if old.1.height != young.1.height {
+                    for (first, second, what) in [(&young, &old, "young coin first, old coin second"), (&old, &young, "old coin first, young coin second")] {
+                        if let Some(seed_header) = header_at(&d, first.1.height.0) {
+                            let puzzle = tmelcrypt::hash_keyed(seed_header.hash(), &stdcode::serialize(&first.0).unwrap());
+                            let difficulty = 10usize;
+                            let data = stdcode::serialize(&(difficulty as u32, gen_proof(&puzzle, difficulty, true))).unwrap();
+                            let b = bound(&d, first.1.height.0, difficulty as u32, true);
+                            for (erg, ew) in [(b, "bound"), (b + 1, "bound + 1")] {
+                                if let Some(t) = mint_tx_n(&mut d, &[first.clone(), second.clone()], data.clone(), erg) {
+                                    d.w.batch(d.cur, &[t], 0, json!({"why": format!("two-input mint, {}, ERG = {} ({})", what, ew, erg), "ages": [h - first.1.height.0, h - second.1.height.0]}));
+                                }
+                            }
+                        }
+                    }
                 }
             }
         }
